@@ -5,6 +5,7 @@ CONSTANTS
   MaxLinks = 3
   BugNoLostOnUsurp = FALSE
   BugNoSelfHeal = FALSE
+  BugEstUnordered = FALSE
 INVARIANT ReportedAreOpen
 INVARIANT CurOpen
 INVARIANT NewerSurvives
